@@ -336,6 +336,26 @@ pub fn onetimeauth_verify(mac: &[u8; 16], m: &[u8], k: &[u8; 32]) -> bool {
     unsafe { ffi::crypto_onetimeauth_verify(mac.as_ptr(), m.as_ptr(), ull(m.len()), k.as_ptr()) == 0 }
 }
 
+/// XSalsa20 keystream: bytes 0..32 are the one-time Poly1305 key of a
+/// secretbox / box under (k, n), bytes 32.. encrypt the message.
+pub fn stream_xsalsa20(len: usize, n: &[u8; 24], k: &[u8; 32]) -> Vec<u8> {
+    let mut out = vec![0u8; len];
+    let rc = unsafe { ffi::crypto_stream_xsalsa20(out.as_mut_ptr(), ull(len), n.as_ptr(), k.as_ptr()) };
+    assert_eq!(rc, 0);
+    out
+}
+
+/// Encoding of s*B on edwards25519 (s not clamped); None for s = 0 / s >= L.
+pub fn ed25519_base_noclamp(s: &[u8; 32]) -> Option<[u8; 32]> {
+    let mut q = [0u8; 32];
+    let rc = unsafe { ffi::crypto_scalarmult_ed25519_base_noclamp(q.as_mut_ptr(), s.as_ptr()) };
+    if rc == 0 {
+        Some(q)
+    } else {
+        None
+    }
+}
+
 pub fn shorthash(m: &[u8], k: &[u8; 16]) -> [u8; 8] {
     let mut out = [0u8; 8];
     unsafe { ffi::crypto_shorthash(out.as_mut_ptr(), m.as_ptr(), ull(m.len()), k.as_ptr()) };
